@@ -154,10 +154,11 @@ EXCL_TYPES = [
     ("*Aux", "named-struct-ptr", (), "type Aux struct {\n\tQ int32\n\tR *string\n}\n\n"),
     ("[]Aux", "named-struct-slice", (), "type Aux struct {\n\tQ int32\n\tR *string\n}\n\n"),
     ("aux1", "embedded-unexported-struct", (), "type aux1 struct {\n\tRev int32\n\tBy  string\n}\n\n"),
+    ("Audit", "embedded-exported-struct-dash-tagged", (), "type Audit struct {\n\tRev int32\n\tBy  *string\n}\n\n"),
     ("time.Time", "qualified", ("time",), ""),
     ("*time.Duration", "qualified", ("time",), ""),
 ]
-EXCL_HOW_QUICK = ["unexported", "dash"]
+EXCL_HOW_QUICK = ["unexported", "dash", "nonascii"]
 EXCL_HOW_THOROUGH = ["unexported", "dash", "underscore", "nonascii"]
 
 
@@ -228,6 +229,10 @@ def c14_pairs(D, tier, seed):
                     how = "embedded-unexported"
                     if any("embedded-unexported" in d for d in desc):
                         continue  # one embedded aux1 per program (a second one would be a duplicate field)
+                if cls == "embedded-exported-struct-dash-tagged":
+                    how = "embedded-dash"
+                    if any("embedded-dash" in d for d in desc):
+                        continue
                 ss = structs_of(dec)
                 path, fl = ss[rnd.randrange(len(ss))]
                 pos = rnd.randint(0, len(fl))
